@@ -472,7 +472,7 @@ Qed.
 (* (a) scalar X, Y, no Z:  ratio * (sxx syy - sxy^2) = sxx syy,  i.e.  ratio = 1 / (1 - r^2)          *)
 (* ------------------------------------------------------------------------------------------------ *)
 Theorem ratio_det_scalar D i j q : ratio_det D [i] [j] [] = Some q ->
-  q * (sc D i i * sc D j j - sc D i j * sc D i j) == sc D i i * sc D j j.
+  q * (sc D i i * sc D j j - sc D i j * sc D i j) == sc D i i * sc D j j /\ ~ sc D i i * sc D j j == 0.
 Proof.
   unfold ratio_det. cbn [app]. rewrite det_idx_nil. unfold det_idx, gram. cbn [map].
   rewrite !det_piv_1, det_piv_2, (sc_sym D j i).
@@ -480,10 +480,12 @@ Proof.
   destruct (Qeq_bool (Qred (sc D j j - sc D i j * sc D i j / sc D i i)) 0) eqn:Ee; [discriminate|].
   unfold ratio_of. intros H.
   match type of H with Some ?t = _ => assert (Hq : q = t) by congruence end. subst q. clear H.
-  rewrite !Qred_correct, !qprod_cons, Qred_correct. cbn [qprod].
   assert (Hi : ~ sc D i i == 0) by (intros C; apply Qeq_bool_iff in C; congruence).
+  assert (Hj : ~ sc D j j == 0) by (intros C; apply Qeq_bool_iff in C; congruence).
   assert (He : ~ sc D j j - sc D i j * sc D i j / sc D i i == 0)
     by (intros C; rewrite <- Qred_correct in C; apply Qeq_bool_iff in C; congruence).
+  split; [|intros C; apply Qmult_integral in C; tauto].
+  rewrite !Qred_correct, !qprod_cons, Qred_correct. cbn [qprod].
   field. split; [exact Hi|]. intros C. apply He.
   setoid_replace (sc D j j - sc D i j * sc D i j / sc D i i) with ((sc D j j * sc D i i - sc D i j * sc D i j) / sc D i i)
     by (field; exact Hi).
@@ -671,7 +673,7 @@ Proof. reflexivity. Qed.
 
 Theorem ratio_res_scalar D i j iz q : ratio_res D [i] [j] iz = Some q ->
   let rx := resid (zbasis D iz) (col D i) in let ry := resid (zbasis D iz) (col D j) in
-  q * (dot rx rx * dot ry ry - dot rx ry * dot rx ry) == dot rx rx * dot ry ry /\ 1 <= q.
+  q * (dot rx rx * dot ry ry - dot rx ry * dot rx ry) == dot rx rx * dot ry ry /\ ~ dot rx rx * dot ry ry == 0 /\ 1 <= q.
 Proof.
   intros H rx ry. rewrite ratio_res_scalar_unfold in H. fold rx ry in H.
   rewrite !det_piv_1, det_piv_2, (dot_sym ry rx) in H.
@@ -687,8 +689,10 @@ Proof.
     rewrite C. field. exact Hx. }
   assert (Hqv : q == xx * yy / (xx * yy - xy * xy)).
   { subst q. rewrite !Qred_correct, !qprod_cons, Qred_correct. cbn [qprod]. field. repeat split; try assumption; intros C; apply Hd; rewrite <- C; ring. }
-  split.
+  assert (Hy : ~ yy == 0) by (intros C; apply Qeq_bool_iff in C; congruence).
+  split; [|split].
   - rewrite Hqv. field. intros C. apply Hd. rewrite <- C. ring.
+  - intros C. apply Qmult_integral in C. tauto.
   - assert (L : length rx = length ry) by (unfold rx, ry; rewrite !residual_length; reflexivity).
     pose proof (cauchy_schwarz rx ry L) as CS. fold xx yy xy in CS.
     pose proof (dot_nonneg rx) as Px. pose proof (dot_nonneg ry) as Py. fold xx in Px. fold yy in Py.
@@ -796,3 +800,26 @@ Theorem residual_same_off_span D iz i u : length u = length D -> Forall (fun b =
 Proof.
   intros Lu HO. apply (dot_resid_keep (length D) u Lu); [apply zbasis_length|apply col_length|exact HO].
 Qed.
+
+(* ------------------------------------------------------------------------------------------------ *)
+(* non-vacuity: a concrete non-degenerate sample on which every hypothesis above holds                *)
+(* ------------------------------------------------------------------------------------------------ *)
+Definition exD : list (list Q) :=
+  [[1; 2; 0; 5]; [2; 1; 1; 3]; [3; 5; 1; 1]; [4; 3; 0; 4]; [6; 4; 2; 2]; [5; 7; 3; 6]; [7; 6; 1; 0]].
+Example ex_forms_agree :
+  ratio_det exD [0%nat] [1%nat] [2%nat; 3%nat] = Some (21571505 # 15613024) /\
+  ratio_corr exD [0%nat] [1%nat] [2%nat; 3%nat] = Some (21571505 # 15613024) /\
+  ratio_res exD [0%nat] [1%nat] [2%nat; 3%nat] = Some (21571505 # 15613024).
+Proof. vm_compute. repeat split. Qed.
+Example ex_chain_rule_hypotheses :
+  ratio_det exD [0%nat] [2%nat; 3%nat] [] <> None /\ ratio_det exD [0%nat] [1%nat] [2%nat; 3%nat] <> None /\
+  Forall (fun i => ~ sc exD i i == 0) ([0%nat] ++ [1%nat] ++ [2%nat; 3%nat]).
+Proof. split; [vm_compute; discriminate|]. split; [vm_compute; discriminate|]. repeat constructor; vm_compute; discriminate. Qed.
+Example ex_affine_instance :
+  ratio_det (rescale_col 1 (-3 # 2) 7 exD) [0%nat] [1%nat] [2%nat; 3%nat] = ratio_det exD [0%nat] [1%nat] [2%nat; 3%nat] /\
+  Forall (fun r => (1 < length r)%nat) exD.
+Proof. split; [vm_compute; reflexivity|repeat constructor]. Qed.
+Example ex_scalar_hypotheses : ratio_det exD [0%nat] [1%nat] [] <> None /\ ratio_res exD [0%nat] [1%nat] [2%nat] <> None.
+Proof. vm_compute. split; discriminate. Qed.
+Example ex_row_perm : ratio_det (rev exD) [0%nat] [1%nat] [2%nat; 3%nat] = ratio_det exD [0%nat] [1%nat] [2%nat; 3%nat].
+Proof. apply ratio_det_row_perm. symmetry. apply Permutation_rev. Qed.
